@@ -660,11 +660,8 @@ impl Float for Iv {
             }
         }
         let lo = if self.lo <= 0.0 {
-            if self.lo < 0.0 {
-                // partially outside the domain: over the reals the true
-                // argument must be >= 0; clip (counted, not fatal)
-                amb();
-            }
+            // partially outside the domain: the exact real argument lies in
+            // the interval and is >= 0 wherever the real function is defined
             0.0
         } else {
             next_down(self.lo.sqrt()).max(0.0)
